@@ -806,7 +806,7 @@ pub fn eval_case(c: &Case13) -> CaseOutcome {
         }
         // a correct assembler rejects the cycle within as many nesting levels as there are macros: a 2 MiB
         // stack and 1 GiB of memory are ample, and make a missing check end quickly and deterministically
-        let out = run_cli_limited(r.text.as_bytes(), Stdin::Closed, false, 1 << 20, 60_000, Limits { as_bytes: 1 << 30, stack_bytes: Some(2 << 20) });
+        let out = run_cli_limited(r.text.as_bytes(), Stdin::Closed, false, 1 << 20, 60_000, Limits { as_bytes: 1 << 30, stack_bytes: Some(2 << 20), cpu_secs: None });
         let creplay = json!({"kind":"cli","source": r.text, "stdin":"", "interpreted": false, "require": ["Syntax Error"]});
         if !matches!(out.status, Status::Exit(0)) {
             mark_expensive();
@@ -992,7 +992,7 @@ fn run_chains(ctx: &Ctx) {
             let src = chain_program(*d, *cyclic);
             // 7 ms of parser construction per level inside the code under test; generous watchdog
             if *debug {
-                run_bin_limited(CLI_DEBUG_BIN, src.as_bytes(), Stdin::Closed, false, 4 << 20, 240_000, Limits { as_bytes: 3 << 30, stack_bytes: Some(8 << 20) })
+                run_bin_limited(CLI_DEBUG_BIN, src.as_bytes(), Stdin::Closed, false, 4 << 20, 240_000, Limits { as_bytes: 3 << 30, stack_bytes: Some(8 << 20), cpu_secs: None })
             } else {
                 run_cli(src.as_bytes(), Stdin::Closed, false, 4 << 20, 120_000 + *d as u64 * 400)
             }
